@@ -16,6 +16,7 @@
 import Proofs.SaveWrite
 import Proofs.SaveHashPath
 import Proofs.SaveWriteRefines
+import Proofs.SaveReopen
 namespace Pyctr.C18
 open Pyctr Pyctr.Save
 
@@ -166,5 +167,26 @@ theorem C18_write_hash_path (H : Bytes → Bytes) (mac : Bytes → Bytes → Byt
       c'.F.length = c.F.length ∧
       (∀ z, Bd ≤ z → (z < p.pOff ∨ p.pOff + p.pSize ≤ z) → c'.F[z]? = c.F[z]?) :=
   lv4Write_hash_path H mac cm c pi p hp data n c' hH hmac hnz hh hg hne Bd hB1 hB2 hB3 hdesc h
+
+/-- opening a container gives a state that is *synced* with its file: re-opening the file yields the same header, table
+    position, and per partition the same descriptor fields, master hashes and DPFS selection (everything but caches / positions) -/
+theorem C18_open_synced (H : Bytes → Bytes) (kind : Kind) (F : Bytes) (w : Bool) (c : Cont) (h : openCont H kind F w = .ok c) :
+    Synced H c := open_synced H kind F w c h
+
+/-- **re-opening after a write (DIFF)**: `Synced` is preserved by every write through the verified level-4 view - so after any
+    sequence of writes, opening the file again parses back the very state the session ended with (new master hashes included),
+    and with `C18_write_hash_path` the re-opened level 4 is the old one with the data laid over it, every touched block verifying.
+    Side conditions, all decidable and evaluated by the driver on every generated image (`save-hyp`: letters g, t, w, r):
+    regular geometry, DPFS tables outside the data windows, a well-formed descriptor, header/table below the partition. -/
+theorem C18_reopen_diff (H : Bytes → Bytes) (mac : Bytes → Bytes → Bytes) (cm : Option CmacScheme) (c : Cont)
+    (p : PartSt) (hk : c.kind = .diff) (hp : c.parts[0]? = some p) (data : Bytes) (n : Nat) (c' : Cont)
+    (hH : ∀ x, (H x).length = 0x20) (hmac : ∀ k x, (mac k x).length = 0x10)
+    (hs : Synced H c)
+    (hg : geomOK (p.P c.F) p.tree p.master = true)
+    (hta : tablesApartB p.dpfs p.tree = true)
+    (hwf : descWFB ⟨p.difi, p.ivfc, p.dpfs, p.master⟩ p.descSize = true)
+    (hL1 : 0x200 ≤ c.tableOff) (hL2 : c.tableOff + c.tableSize ≤ p.pOff) (hL3 : p.pOff ≤ c.F.length)
+    (h : lv4Write H mac cm c 0 data = .ok (n, c')) : Synced H c' :=
+  lv4Write_synced_diff H mac cm c p hk hp data n c' hH hmac hs hg (tablesApart_of_b _ _ hta) (descWF_of_b _ _ hwf) hL1 hL2 hL3 h
 
 end Pyctr.C18
